@@ -42,7 +42,13 @@ type Entry struct {
 type TarSpec struct {
 	Entries []Entry
 	Prefix  string // "", "./" — how names are spelled in the tar
+	// OwnerNames writes user and group names into the headers, derived from the numeric ids so that
+	// some users and groups share both number and name (root/root, user/user) and others do not
+	OwnerNames bool
 }
+
+var unames = map[int]string{0: "root", 1000: "user", 65534: "nobody"}
+var gnames = map[int]string{0: "root", 1000: "user", 100: "users"}
 
 // Draw is the tape accessor handed to generators.
 type Draw func(n int) int
@@ -58,7 +64,7 @@ type GenOpts struct {
 	ChunkSize  int
 	Whiteouts  bool // allow .wh. entries and opaque markers (C07)
 	OddNames   bool // names with bytes that sort around "." and "..", spaces, non-ASCII
-	BigFiles   bool // also files of many chunks
+	BigFiles   bool // also files of many chunks, and device numbers beyond 8 bits
 }
 
 func fileData(seed uint64, n int) []byte {
@@ -155,6 +161,10 @@ func GenTar(d Draw, seed uint64, o GenOpts) *TarSpec {
 		case k == 10:
 			e.Type = []byte{tar.TypeChar, tar.TypeBlock}[d(2)]
 			e.Major, e.Minor = int64(1+d(200)), int64(d(200))
+			if o.BigFiles && e.Minor%3 == 0 {
+				// device numbers beyond 8 bits (the kernel's dev_t has 12 major and 20 minor bits)
+				e.Major, e.Minor = []int64{4, 259, 65, 180, 4095}[e.Minor%5], []int64{256, 300, 257, 70000, 1<<20 - 1}[e.Major%5]
+			}
 		default:
 			e.Type = tar.TypeFifo
 		}
@@ -234,6 +244,9 @@ func (ts *TarSpec) Bytes() []byte {
 	for _, e := range ts.Entries {
 		h := &tar.Header{Name: ts.Prefix + e.Name, Typeflag: e.Type, Mode: e.Mode, Uid: e.UID, Gid: e.GID, ModTime: time.Unix(e.MTime, 0),
 			Devmajor: e.Major, Devminor: e.Minor, Format: tar.FormatPAX}
+		if ts.OwnerNames {
+			h.Uname, h.Gname = unames[e.UID], gnames[e.GID]
+		}
 		switch e.Type {
 		case tar.TypeDir:
 			h.Name += "/"
@@ -268,6 +281,8 @@ type MNode struct {
 	Type     byte
 	Mode     int64
 	UID, GID int
+	Uname    string
+	Gname    string
 	MTime    int64
 	Data     []byte
 	Link     string
@@ -323,7 +338,7 @@ func Model(tarBytes []byte) (*MNode, error) {
 			continue
 		}
 		parent := get(path.Dir(name), true)
-		n := &MNode{Name: path.Base(name), Path: name, Type: h.Typeflag, Mode: h.Mode, UID: h.Uid, GID: h.Gid, MTime: h.ModTime.Unix(),
+		n := &MNode{Name: path.Base(name), Path: name, Type: h.Typeflag, Mode: h.Mode, UID: h.Uid, GID: h.Gid, Uname: h.Uname, Gname: h.Gname, MTime: h.ModTime.Unix(),
 			Link: h.Linkname, Major: h.Devmajor, Minor: h.Devminor}
 		for k, v := range h.PAXRecords {
 			if strings.HasPrefix(k, "SCHILY.xattr.") {
